@@ -182,6 +182,12 @@ func c01(c *Ctx) {
 				r.Except("C01.R1", fi.Name(), construct, pos, reason)
 				return true
 			}
+			// the same exception wherever the loop lives (a look-up helper shared by the two handlers): a first-match loop over
+			// sessions whose predicate pins the session's nickname to a loop-invariant value
+			if c.firstMatchLoop(fi, rs) && matchesByNick(info, rs) {
+				r.Except("C01.R1", fi.Name(), construct, pos, "first match by a predicate on the session's nickname; unique because nicknames are unique (C14), so at most one iteration acts")
+				return true
+			}
 			if fi.Name() == "ircserver.(*IRCServer).Marshal" {
 				r.Except("C01.R1", fi.Name(), construct, pos, exceptionsR1[fi.Name()])
 				return true
@@ -967,4 +973,61 @@ func (c *Ctx) orderInsensitive(fi *load.FuncInfo, g *cfgx.Graph, rs *ast.RangeSt
 		names = []string{"no effect outside the iteration"}
 	}
 	return true, strings.Join(names, " + "), ""
+}
+
+// matchesByNick: the first statement of the loop body tests <value>.Nick (possibly through NickToLower) against something
+// that does not mention the loop variables.
+func matchesByNick(info *types.Info, rs *ast.RangeStmt) bool {
+	if len(rs.Body.List) == 0 || rs.Value == nil {
+		return false
+	}
+	vid, ok := rs.Value.(*ast.Ident)
+	if !ok {
+		return false
+	}
+	val := astx.Obj(info, vid)
+	var key types.Object
+	if kid, ok := rs.Key.(*ast.Ident); ok {
+		key = astx.Obj(info, kid)
+	}
+	ifs, ok := rs.Body.List[0].(*ast.IfStmt)
+	if !ok {
+		return false
+	}
+	found := false
+	ast.Inspect(ifs.Cond, func(n ast.Node) bool {
+		be, ok := n.(*ast.BinaryExpr)
+		if !ok || (be.Op != token.EQL && be.Op != token.NEQ) {
+			return true
+		}
+		for _, pair := range [][2]ast.Expr{{be.X, be.Y}, {be.Y, be.X}} {
+			nickSide, other := pair[0], pair[1]
+			isNick := false
+			ast.Inspect(nickSide, func(m ast.Node) bool {
+				if se, ok := m.(*ast.SelectorExpr); ok && se.Sel.Name == "Nick" {
+					if id, ok := ast.Unparen(se.X).(*ast.Ident); ok && astx.Obj(info, id) == val {
+						isNick = true
+					}
+				}
+				return true
+			})
+			if !isNick {
+				continue
+			}
+			invariant := true
+			ast.Inspect(other, func(m ast.Node) bool {
+				if id, ok := m.(*ast.Ident); ok {
+					if o := astx.Obj(info, id); o != nil && (o == val || o == key) {
+						invariant = false
+					}
+				}
+				return true
+			})
+			if invariant {
+				found = true
+			}
+		}
+		return true
+	})
+	return found
 }
